@@ -30,8 +30,8 @@ func TestVerifWheel(t *testing.T) {
 		tr.init(3, start)
 		now := start
 		entries := map[int]*Entry[int, int]{}
-		legal := map[int]bool{}     // scheduled with a deadline after wheel time
-		inWheel := map[int]bool{}   // harness's own view
+		legal := map[int]bool{}   // scheduled with a deadline after wheel time
+		inWheel := map[int]bool{} // harness's own view
 		reported := map[int]int{}
 		pickExp := func() int64 {
 			lv := r.intn(6)
